@@ -464,6 +464,35 @@ def run_hexagons(tier, acc):
                                    start=list(start)),
                               "concentric_hexagons(%d, %r): %s"
                               % (r, start, bad), size=r)
+    # consumption histories: a generator abandoned after k chips (every k,
+    # radii 1..4), then complete enumerations; the module is re-executed
+    # before each history so that it starts from a fresh interpreter's state
+    import importlib
+    for rp in (1, 2, 3, 4):
+        size = 1 + 3 * rp * (rp + 1)
+        for k in range(0, size + 1):
+            importlib.reload(geometry)
+            acc.evaluations += 1
+            acc.nontrivial += 1
+            g = geometry.concentric_hexagons(rp)
+            for _ in range(k):
+                next(g, None)
+            del g
+            for r2 in (rp, rp + 1, max(0, rp - 1)):
+                got = list(geometry.concentric_hexagons(r2, (1, 1)))
+                rel = [(x - 1, y - 1) for x, y in got]
+                want = set(c for c, d in md.items() if d <= r2)
+                if len(set(rel)) != len(rel) or set(rel) != want:
+                    acc.violation(
+                        dict(kind="hexagons_history"),
+                        dict(kind="hexagons", history=[rp, k, r2]),
+                        "after abandoning concentric_hexagons(%d) after %d "
+                        "chips, concentric_hexagons(%d, (1, 1)) yields %d "
+                        "chips (%d distinct), %d are within distance"
+                        % (rp, k, r2, len(rel), len(set(rel)), len(want)),
+                        size=rp * 100 + k)
+                    break
+    importlib.reload(geometry)
     acc.sample(dict(kind="hexagons", max_radius=R))
 
 
